@@ -29,6 +29,9 @@ func main() {
 		runRaftsim(os.Args[2:])
 	case "apply":
 		runApply(os.Args[2:])
+	case "codec":
+		setupLogger()
+		runCodec(os.Args[2:])
 	default:
 		fmt.Fprintln(os.Stderr, "unknown engine", os.Args[1])
 		os.Exit(2)
